@@ -196,7 +196,7 @@ def trichotomy(a, b):
     return z3.Implies(z3.And(nn(a), nn(b)), z3.Or(SM.sql_lt(a, b), SM.sql_lt(b, a), SM.sql_eq(a, b)))
 
 
-def dbval_order_lemma():
+def dbval_order_lemma(pid='C03'):
     """SQLite's comparison is total on non-NULL values: proved once here (z3, using the TEXT/BLOB order
     axioms) and then used as a quantified fact in the iterkeys obligations."""
     a, b = z3.Consts('lem_a lem_b', SM.DbVal)
@@ -205,7 +205,7 @@ def dbval_order_lemma():
     ta, tb, ba, bb = SM.DbVal.tv(a), SM.DbVal.tv(b), SM.DbVal.bv(a), SM.DbVal.bv(b)
     tl, bl = SM.text_lt, SM.blob_lt
     insts = [z3.Or(ta == tb, tl(ta, tb), tl(tb, ta)), z3.Or(ba == bb, bl(ba, bb), bl(bb, ba))]
-    r = discharge('C03.lemma.dbval_trichotomy', 'lemma', insts, trichotomy(a, b), function='SQLite comparison (model)')
+    r = discharge(pid + '.lemma.dbval_trichotomy', 'lemma', insts, trichotomy(a, b), function='SQLite comparison (model)')
     return [r]
 
 
